@@ -156,7 +156,8 @@ def label_loops(fnode):
 
 def assigned_names(stmts):
     """names (and subscripted/attribute bases) syntactically assigned in a statement list"""
-    names, written, attrs = set(), set(), set()
+    names, written, attrs = _NameSet(), set(), set()
+    mutated = set()
 
     def target(t):
         if isinstance(t, ast.Name):
@@ -191,4 +192,16 @@ def assigned_names(stmts):
                         target(it.optional_vars)
             elif isinstance(n, ast.ExceptHandler) and n.name:
                 names.add(n.name)
+            elif isinstance(n, ast.Call) and isinstance(n.func, ast.Attribute) and n.func.attr in MUTATORS:
+                written.add(ast.unparse(n.func.value))
+                if isinstance(n.func.value, ast.Name):
+                    mutated.add(n.func.value.id)
+    names.mutated = mutated
     return names, written, attrs
+
+
+MUTATORS = {"append", "extend", "pop", "sort", "fill", "clear", "insert", "remove", "byteswap", "update"}
+
+
+class _NameSet(set):
+    mutated = ()
